@@ -26,7 +26,7 @@ ENGINES = {
     "C09": "ropesim.engines.effects",
 }
 
-RUN_TIMEOUT_S = 600
+RUN_TIMEOUT_S = int(os.environ.get("VERIF_RUN_TIMEOUT", "600"))
 
 
 def load_engine(prop):
@@ -251,6 +251,10 @@ def _merge(agg, p):
         agg["known"][fid] += c
     for fid, ex in p.get("known", []):
         agg["known_examples"].setdefault(fid, ex)
+    for v in p["violations"]:
+        key = kernel.canon(v["signature"])
+        ent = agg.setdefault("sig_counts", {}).setdefault(key, [0, p["run"]])
+        ent[0] += 1
     if p["violations"]:
         agg["violations"].append(p)
     if p.get("min_error"):
@@ -364,6 +368,7 @@ def main(argv=None):
     ap.add_argument("--one", type=int, default=None, help="execute a single run index in-process and print its outcome")
     ap.add_argument("--digests", action="store_true", help="print run-index:digest lines (determinism self-test)")
     ap.add_argument("--no-minimise", action="store_true")
+    ap.add_argument("--signatures", action="store_true", help="list every distinct unknown violation signature with counts")
     ap.add_argument("--no-evidence", action="store_true")
     ap.add_argument("--quiet", action="store_true")
     ap.add_argument("--mode", default="determinism", choices=["determinism", "sensitivity", "all"], help="selftest mode")
@@ -389,6 +394,9 @@ def main(argv=None):
         a.prop, a.tier, a.seed, a.procs, a.runs, a.wall, minimise=not a.no_minimise, quiet=a.quiet,
         evidence=not a.no_evidence,
     )
+    if a.signatures:
+        for key, (cnt, run) in sorted(agg.get("sig_counts", {}).items(), key=lambda kv: -kv[1][0]):
+            print("SIGNATURE count=%d first_run=%d %s" % (cnt, run, key))
     if a.digests:
         for r in sorted(agg["digests"]):
             print("DIGEST %d %s" % (r, agg["digests"][r]))
